@@ -34,6 +34,18 @@ func VerifC33RunJobWorker() {
 	for i := range errs {
 		errs[i] = &verifC33Err{job: i}
 	}
+	// the error value a failing job returns may also be one of the context errors
+	// (a job that gave up on its own sub-context): it is a job error like any other
+	switch verifrt.NondetChoice("errkind", 3) {
+	case 1:
+		for i := range errs {
+			errs[i] = errors.Wrapf(context.Canceled, "job %d", i)
+		}
+	case 2:
+		for i := range errs {
+			errs[i] = errors.Wrapf(context.DeadlineExceeded, "job %d", i)
+		}
+	}
 	err := RunJobWorker(context.Background(), int64(workers), int64(size), func(ctx context.Context, i, jobid uint64) error {
 		started[i]++
 		verifrt.Yield("job body")
